@@ -8,7 +8,7 @@ from rexverif.common import CaseResult
 ID = "C16"
 TIERS = {
     "quick": dict(examples=2400, shards=16, timeout_s=1800, shrink_s=120, sim_per_shard=4),
-    "thorough": dict(examples=6000, shards=16, timeout_s=7200, shrink_s=300, sim_per_shard=20),
+    "thorough": dict(examples=60000, shards=16, timeout_s=7200, shrink_s=300, sim_per_shard=40),
 }
 RULE = (
     "Hypothesis draws a history of operations over a growing node set: add node (rate, delay distribution, optional explicit "
